@@ -1208,12 +1208,16 @@ def _register_required_structure_hooks(
 
     def _notebook_filter_hook(
         object_: Any, _: type
-    ) -> Union[
-        str,
-        lsp_types.NotebookDocumentFilterNotebookType,
-        lsp_types.NotebookDocumentFilterScheme,
-        lsp_types.NotebookDocumentFilterPattern,
+    ) -> Optional[
+        Union[
+            str,
+            lsp_types.NotebookDocumentFilterNotebookType,
+            lsp_types.NotebookDocumentFilterScheme,
+            lsp_types.NotebookDocumentFilterPattern,
+        ]
     ]:
+        if object_ is None:
+            return None
         if isinstance(object_, str):
             return str(object_)
         elif "notebookType" in object_:
@@ -1255,6 +1259,8 @@ def _register_required_structure_hooks(
             _notebook_filter_hook,
         ),
         (NotebookSelectorItem, _notebook_filter_hook),
+        (Optional[NotebookSelectorItem], _notebook_filter_hook),
+        (Optional[Union[str, Sequence[str]]], lambda object_, _type: object_),
         (
             Union[lsp_types.LSPObject, Sequence["LSPAny"], str, int, float, bool, None],
             _lsp_object_hook,
